@@ -30,16 +30,31 @@ type c05case struct {
 	Cipher  []byte `json:"cipher"`  // the section as laid out in the file (hex text or binary)
 	Trailer []byte `json:"trailer"` // clear text after the section
 	Gap     []byte `json:"gap"`     // white space between `eexec` and the section
+	// Payloads are the binary strings the plaintext reads with readstring, in
+	// order; each is left on the operand stack
+	Payloads [][]byte `json:"payloads,omitempty"`
 }
 
 func stateOf(text []byte) (string, error) {
+	s, _, err := stateAndStrings(text)
+	return s, err
+}
+
+// stateAndStrings also returns the strings on the final operand stack.
+func stateAndStrings(text []byte) (string, [][]byte, error) {
 	intp := postscript.NewInterpreter()
 	intp.MaxOps = 5_000_000
 	err := intp.Execute(bytes.NewReader(text))
 	if err != nil {
-		return "", err
+		return "", nil, err
 	}
-	return pscanon.StateWithSystem(intp), nil
+	var strs [][]byte
+	for _, o := range intp.Stack {
+		if str, ok := o.(postscript.String); ok {
+			strs = append(strs, []byte(str))
+		}
+	}
+	return pscanon.StateWithSystem(intp), strs, nil
 }
 
 func check(c *c05case) string {
@@ -67,7 +82,21 @@ func check(c *c05case) string {
 	if errB != nil {
 		return "" // the plaintext itself fails: nothing to compare (counted by the caller)
 	}
-	sa, errA := stateOf(a.Bytes())
+	sa, strs, errA := stateAndStrings(a.Bytes())
+	if errA == nil {
+		// byte-exact delivery: the payloads are, in order, among the strings
+		// left on the operand stack
+		k := 0
+		for _, p := range c.Payloads {
+			for k < len(strs) && !bytes.Equal(strs[k], p) {
+				k++
+			}
+			if k == len(strs) {
+				return fmt.Sprintf("a binary payload read with readstring inside the section was not delivered byte-exact: %q is not among the strings left on the stack %q\nplaintext: %q", clip(p), clipAll(strs), clip(c.Plain))
+			}
+			k++
+		}
+	}
 	if errA != nil {
 		return fmt.Sprintf("the encrypted form fails with %v, the plaintext form runs without error\nplaintext: %q", errA, clip(c.Plain))
 	}
@@ -94,6 +123,17 @@ func plainFails(c *c05case) bool {
 	b.Write(c.Plain)
 	_, err := stateOf(b.Bytes())
 	return err != nil
+}
+
+func clipAll(bs [][]byte) [][]byte {
+	var out [][]byte
+	for i, b := range bs {
+		if i == 6 {
+			break
+		}
+		out = append(out, clip(b))
+	}
+	return out
 }
 
 func clip(b []byte) []byte {
@@ -140,7 +180,7 @@ func pairsCovered() int {
 func TestP1Eexec(t *testing.T) {
 	rec := ev.New("C05", "eexec")
 	defer rec.Finish(t)
-	rec.Rule("plaintext: probes that observe systemdict on the dictionary stack (`/eexecprobe 42 def`, `currentdict /add known`), a data program from the C02 generator run inside `userdict begin`, 0-3 binary payloads read with `n string currentfile exch readstring <sep><n bytes> pop` or through an RD procedure `n RD <sep><n bytes>` (one separator byte, then n arbitrary bytes, n up to 1500 so that sections straddle the scanner's 512-byte buffer), optionally dictionaries left on the dictionary stack; ending in `mark currentfile closefile` + one white-space byte (then clear-text trailer: 0-600 zeros in lines, cleartomark, further tokens) or running to the end of input. Encrypted by the harness cipher; the four leading cipher bytes are drawn (any for hex; for binary: first byte not white space and one of the four not a hex digit, corner values included); laid out as hex (digit case per digit, white space of all kinds at any position after the first four digits, any line width) or binary; 0-3 white-space bytes between `eexec` and the section; clear text before the section padded so that the section starts at any offset, half of the time within 12 bytes of a multiple of 512 (the scanner's buffer size). Oracle: same interpreter fed `pre systemdict begin <plaintext> [mark] end... <trailer>`: canonical state (stack incl. the strings read, dict stack, userdict, additions to systemdict, FontDirectory, resources) equal and both runs without error. Non-trivial: section >= 20 plaintext bytes and one of {binary form, interior white space, upper-case hex, payload with a byte < 32 or >= 128, trailer executed after closefile}; distinct by file bytes.")
+	rec.Rule("plaintext: probes that observe systemdict on the dictionary stack (`/eexecprobe 42 def`, `currentdict /add known`), a data program from the C02 generator run inside `userdict begin`, 0-3 binary payloads read with `n string currentfile exch readstring <sep><n bytes> pop` or through an RD procedure `n RD <sep><n bytes>` (one separator byte, then n arbitrary bytes, n up to 1500 so that sections straddle the scanner's 512-byte buffer), optionally dictionaries left on the dictionary stack; ending in `mark currentfile closefile` + one white-space byte (then clear-text trailer: 0-600 zeros in lines, cleartomark, further tokens) or running to the end of input. Encrypted by the harness cipher; the four leading cipher bytes are drawn (any for hex; for binary: first byte not white space and one of the four not a hex digit, corner values included); laid out as hex (digit case per digit, white space of all kinds at any position after the first four digits, any line width) or binary; 0-3 white-space bytes between `eexec` and the section; clear text before the section padded so that the section starts at any offset, half of the time within 12 bytes of a multiple of 512 (the scanner's buffer size). Oracle: same interpreter fed `pre systemdict begin <plaintext> [mark] end... <trailer>`: canonical state (stack incl. the strings read, dict stack, userdict, additions to systemdict, FontDirectory, resources) equal and both runs without error; and, absolutely, every payload is among the strings the encrypted run leaves on the operand stack, byte for byte and in order (a CR separator directly followed by a payload starting with LF is not generated: whether CR LF counts as one separator there is not settled by the references). Non-trivial: section >= 20 plaintext bytes and one of {binary form, interior white space, upper-case hex, payload with a byte < 32 or >= 128, trailer executed after closefile}; distinct by file bytes.")
 	rec.Assume("decryption correctness is independent of the library: the cipher text comes from the harness implementation of the Adobe algorithm (t1ref.Encrypt, key 55665, c1 52845, c2 22719)")
 	cfg := psgen.Config{TypeLiteral: true}
 	ev.SetupRapid(60000, 1500000)
@@ -207,6 +247,12 @@ func TestP1Eexec(t *testing.T) {
 				}
 			}
 			sep := []byte{' ', '\n', '\r', '\t'}[rapid.IntRange(0, 3).Draw(t, "sep")]
+			if sep == '\r' && n > 0 && payload[0] == '\n' {
+				// whether a CR LF pair after the operator counts as one
+				// separator is not settled by the references: not generated
+				payload[0] = 'L'
+			}
+			c.Payloads = append(c.Payloads, payload)
 			// the data follows the token that triggers the read: the name of the
 			// RD procedure, or `readstring` itself when written inline
 			if useRD {
